@@ -110,41 +110,55 @@ Section C17.
       Permutation (from_group N root target) (flatten_ref N g Manc).
   Proof. exact (from_group_is_ref N OK). Qed.
 
-  (* Document.paths_from_group(element): as above when the group has children *)
-  Theorem C17_paths_from_group_partial : forall root target tf c kids Manc,
-      subtree_at N root target (mI N) = Some (Group tf (c :: kids), Manc) ->
-      Permutation (paths_from_group N root target) (flatten_ref N (Group tf (c :: kids)) Manc).
+  (* Document.paths_from_group(element): as above when the group has children
+     (pinned and repaired code) ... *)
+  Theorem C17_paths_from_group_partial : forall c root target tf ch kids Manc,
+      subtree_at N root target (mI N) = Some (Group tf (ch :: kids), Manc) ->
+      Permutation (paths_from_group N c root target) (flatten_ref N (Group tf (ch :: kids)) Manc).
   Proof. exact (paths_from_group_is_ref N OK). Qed.
+  (* ... and, repaired (f_group_empty), for every group *)
+  Theorem C17_paths_from_group : forall c root target g Manc,
+      f_group_empty c = true ->
+      subtree_at N root target (mI N) = Some (g, Manc) -> is_group g ->
+      Permutation (paths_from_group N c root target) (flatten_ref N g Manc).
+  Proof. exact (paths_from_group_is_ref_repaired N OK). Qed.
 
-  (* ---- shape conversion: converter + parse_path = SVG 1.1 §9 ---- *)
-  Theorem C17_shapes_path : forall rt a, convert N rt KPath a = shape_spec N KPath a.
+  (* ---- shape conversion: converter + parse_path = SVG 1.1 §9 ----
+     [c] is the variant of the code (Model/SvgTree.v cfg; pinned = all false) *)
+  Theorem C17_shapes_path : forall c rt a, convert N c rt KPath a = shape_spec N KPath a.
   Proof. exact (convert_path N). Qed.
-  Theorem C17_shapes_line_document : forall a, convert N RDocument KLine a = shape_spec N KLine a.
+  Theorem C17_shapes_line_document : forall c a, convert N c RDocument KLine a = shape_spec N KLine a.
   Proof. exact (convert_line_document N). Qed.
-  Theorem C17_shapes_line_svg2paths_partial : forall a x1 y1 x2 y2,
+  Theorem C17_shapes_line_svg2paths_partial : forall c a x1 y1 x2 y2,
       a_x1 a = Some x1 -> a_y1 a = Some y1 -> a_x2 a = Some x2 -> a_y2 a = Some y2 ->
-      convert N RSvg2paths KLine a = shape_spec N KLine a.
+      convert N c RSvg2paths KLine a = shape_spec N KLine a.
   Proof. exact (convert_line_svg2paths N). Qed.
-  Theorem C17_shapes_polyline : forall rt a, convert N rt KPolyline a = shape_spec N KPolyline a.
+  (* repaired (f_line_default, f_sax_line): every route, every attribute set *)
+  Theorem C17_shapes_line : forall c rt a,
+      f_line_default c = true -> f_sax_line c = true ->
+      convert N c rt KLine a = shape_spec N KLine a.
+  Proof. exact (convert_line_repaired N). Qed.
+  Theorem C17_shapes_polyline : forall c rt a, convert N c rt KPolyline a = shape_spec N KPolyline a.
   Proof. exact (convert_polyline N CMP). Qed.
-  Theorem C17_shapes_polygon : forall rt a, convert N rt KPolygon a = shape_spec N KPolygon a.
+  Theorem C17_shapes_polygon : forall c rt a, convert N c rt KPolygon a = shape_spec N KPolygon a.
   Proof. exact (convert_polygon N CMP). Qed.
-  Theorem C17_shapes_circle : forall rt a r,
-      a_r a = Some r -> pos N r = true -> convert N rt KCircle a = shape_spec N KCircle a.
+  Theorem C17_shapes_circle : forall c rt a r,
+      a_r a = Some r -> pos N r = true -> convert N c rt KCircle a = shape_spec N KCircle a.
   Proof. exact (convert_circle N OK CMP). Qed.
-  Theorem C17_shapes_ellipse : forall rt a rx ry,
+  Theorem C17_shapes_ellipse : forall c rt a rx ry,
       a_r a = None -> a_rx a = Some rx -> a_ry a = Some ry -> pos N rx = true -> pos N ry = true ->
-      convert N rt KEllipse a = shape_spec N KEllipse a.
+      convert N c rt KEllipse a = shape_spec N KEllipse a.
   Proof. exact (convert_ellipse N OK CMP). Qed.
-  Theorem C17_shapes_rect_plain : forall rt a w h,
+  Theorem C17_shapes_rect_plain : forall c rt a w h,
       a_w a = Some w -> a_h a = Some h -> a_rx a = None -> a_ry a = None ->
       pos N w = true -> pos N h = true -> nonneg N (zero N) = true ->
-      convert N rt KRect a = shape_spec N KRect a.
+      convert N c rt KRect a = shape_spec N KRect a.
   Proof. exact (convert_rect_plain N OK CMP). Qed.
-  (* rounded: only when the element reaches rect2pathd as a dict (svg2paths,
-     SaxDocument) and the radii are not larger than half the size *)
-  Theorem C17_shapes_rect_rounded_partial : forall rt a w h rx ry,
-      via_dict rt = true ->
+  (* rounded, radii not larger than half the size: when the attributes reach
+     rect2pathd — the dict routes (svg2paths, SaxDocument), or every route
+     once the membership test is repaired (f_rect_attr) *)
+  Theorem C17_shapes_rect_rounded_partial : forall c rt a w h rx ry,
+      via_dict rt || f_rect_attr c = true ->
       a_w a = Some w -> a_h a = Some h ->
       (a_rx a = Some rx /\ a_ry a = Some ry) \/
       (a_rx a = Some rx /\ a_ry a = None /\ ry = rx) \/
@@ -152,8 +166,21 @@ Section C17.
       pos N w = true -> pos N h = true -> pos N rx = true -> pos N ry = true ->
       nonneg N rx = true -> nonneg N ry = true -> nonneg N (zero N) = true ->
       ltb N (half N w) rx = false -> ltb N (half N h) ry = false ->
-      convert N rt KRect a = shape_spec N KRect a.
+      convert N c rt KRect a = shape_spec N KRect a.
   Proof. exact (convert_rect_rounded N CMP). Qed.
+  (* repaired (f_rect_attr, f_rect_clamp): every route, every non-negative
+     rx / ry (also larger than half the size, rx only, ry only), as long as the
+     effective radii of SVG 1.1 §9.2 are not zero *)
+  Theorem C17_shapes_rect : forall c rt a w h,
+      via_dict rt || f_rect_attr c = true -> f_rect_clamp c = true ->
+      a_w a = Some w -> a_h a = Some h ->
+      (a_rx a <> None \/ a_ry a <> None) ->
+      pos N w = true -> pos N h = true ->
+      nonneg N (odef (zero N) (a_rx a)) = true -> nonneg N (odef (zero N) (a_ry a)) = true ->
+      fst (rect_radii N w h (a_rx a) (a_ry a)) <> zero N ->
+      snd (rect_radii N w h (a_rx a) (a_ry a)) <> zero N ->
+      convert N c rt KRect a = shape_spec N KRect a.
+  Proof. exact (convert_rect_clamped N CMP). Qed.
 
   (* ---- transform(): Bezier/Line segments get their control points mapped ---- *)
   Theorem C17_transform_bezier : forall M l,
@@ -181,15 +208,29 @@ Section C17.
   Qed.
 
   (* ---- SaxDocument ---- *)
-  Theorem C17_sax_stack_is_rec : forall root, sax_tree N root = sax_rec N root None.
+  Theorem C17_sax_stack_is_rec : forall c root, sax_tree N c root = sax_rec N c root None.
   Proof. exact (sax_tree_rec N). Qed.
-  Theorem C17_sax_order : forall root,
-      map (fun o : @saxout K => (fst (fst o), snd (fst o))) (sax_tree N root) = preorder root.
-  Proof. intros root. rewrite (sax_tree_rec N). apply sax_rec_preorder. Qed.
-  (* a <line> anywhere in the file: the constructor raises (AttributeError) *)
-  Theorem C17_sax_line_refuted : forall root a,
-      In (KLine, a) (preorder root) -> sax_parse N root = None.
+  Theorem C17_sax_order : forall c root,
+      map (fun o : @saxout K => (fst (fst o), snd (fst o))) (sax_tree N c root) = preorder root.
+  Proof. intros c root. rewrite (sax_tree_rec N). apply sax_rec_preorder. Qed.
+  (* pinned line2pathd: a <line> anywhere in the file: the constructor raises (AttributeError) *)
+  Theorem C17_sax_line_refuted : forall c root a,
+      f_sax_line c = false ->
+      In (KLine, a) (preorder root) -> sax_parse N c root = None.
   Proof. exact (sax_line_raises N). Qed.
+  (* repaired order (f_sax_order): the recorded matrices are the reference's,
+     element by element in the reference's order (no matrix = identity) *)
+  Theorem C17_sax_matrix : forall c root,
+      f_sax_order c = true ->
+      map (fun o : @saxout K => (fst (fst o), snd (fst o), odefm N (snd o))) (sax_tree N c root)
+      = flatten_ref N root (mI N).
+  Proof. exact (sax_tree_ref N OK). Qed.
+  (* repaired order and flatten (f_sax_order, f_sax_keep): flatten_all_paths is
+     the reference traversal followed by conversion and transform() *)
+  Theorem C17_sax_flatten : forall c root,
+      f_sax_order c = true -> f_sax_keep c = true ->
+      sax_flatten N c root = mapM (sax_ref_entry N c) (flatten_ref N root (mI N)).
+  Proof. exact (sax_flatten_ref N OK CMP). Qed.
 End C17.
 
 (* ------------------------------------------------------------------ *)
@@ -213,9 +254,9 @@ Definition rect_rounded : @attrs Qc :=
 (* Document hands the Element itself to rect2pathd: `'rx' in rect` looks at the
    children, the rounding is lost (4 lines instead of 4 lines + 4 arcs) *)
 Example C17_shapes_rect_document_refuted :
-  option_map (@length _) (convert N RDocument KRect rect_rounded) = Some 4%nat
+  option_map (@length _) (convert N pinned RDocument KRect rect_rounded) = Some 4%nat
   /\ option_map (@length _) (shape_spec N KRect rect_rounded) = Some 8%nat
-  /\ osegs_eq (convert N RSvg2paths KRect rect_rounded) (shape_spec N KRect rect_rounded) = true.
+  /\ osegs_eq (convert N pinned RSvg2paths KRect rect_rounded) (shape_spec N KRect rect_rounded) = true.
 Proof. vm_compute. repeat split. Qed.
 
 (* rx larger than half the width is not clamped (SVG 1.1 §9.2) *)
@@ -228,7 +269,7 @@ Definition first_arc_rx (o : option (list (@seg Qc))) : option Qc :=
   | _ => None
   end.
 Example C17_shapes_rect_clamp_refuted :
-  option_map (@this) (first_arc_rx (convert N RSvg2paths KRect rect_big_rx)) = Some (8 # 1)%Q
+  option_map (@this) (first_arc_rx (convert N pinned RSvg2paths KRect rect_big_rx)) = Some (8 # 1)%Q
   /\ option_map (@this) (first_arc_rx (shape_spec N KRect rect_big_rx)) = Some (5 # 1)%Q.
 Proof. vm_compute. split; reflexivity. Qed.
 
@@ -236,9 +277,9 @@ Proof. vm_compute. split; reflexivity. Qed.
 Definition line_no_x1 : @attrs Qc :=
   mkAttrs 1 [] None None None None None None None None None None None (Some (q 3)) (Some (q 4)) [].
 Example C17_shapes_line_svg2paths_refuted :
-  convert N RSvg2paths KLine line_no_x1 = None
+  convert N pinned RSvg2paths KLine line_no_x1 = None
   /\ osegs_eq (shape_spec N KLine line_no_x1) (Some [SgLine (q 0, q 0) (q 3, q 4)]) = true
-  /\ osegs_eq (convert N RDocument KLine line_no_x1) (shape_spec N KLine line_no_x1) = true.
+  /\ osegs_eq (convert N pinned RDocument KLine line_no_x1) (shape_spec N KLine line_no_x1) = true.
 Proof. vm_compute. repeat split. Qed.
 
 (* a circle under translate(1,1): Document.paths() raises *)
@@ -247,9 +288,9 @@ Definition circle1 : @attrs Qc :=
 Definition tree_circle : qnode :=
   Group [] [Group [TTranslate (q 1) (Some (q 1))] [Shape KCircle circle1 []]].
 Example C17_arc_transform_refuted :
-  doc_paths N tree_circle = None
+  doc_paths N pinned tree_circle = None
   /\ length (ref_paths N tree_circle) = 1%nat
-  /\ check_document (q 0) tree_circle None = 6%nat.   (* tie holds (bit 0 clear); count (2) and element 0 (4) fail *)
+  /\ check_document pinned (q 0) tree_circle None = 6%nat.   (* tie holds (bit 0 clear); count (2) and element 0 (4) fail *)
 Proof. vm_compute. repeat split. Qed.
 
 (* SaxDocument multiplies child · parent: <g translate(10,0)><g scale(2)><path/> *)
@@ -258,7 +299,7 @@ Definition path1 : @attrs Qc :=
 Definition tree_nested : qnode :=
   Group [] [Group [TTranslate (q 10) (Some (q 0))] [Group [TScale (q 2) None] [Shape KPath path1 []]]].
 Example C17_sax_matrix_refuted :
-  mats_eq (map (fun o : @saxout Qc => match snd o with Some M => M | None => mI N end) (sax_tree N tree_nested))
+  mats_eq (map (fun o : @saxout Qc => match snd o with Some M => M | None => mI N end) (sax_tree N pinned tree_nested))
           [mat6 (q 2) (q 0) (q 0) (q 2) (q 20) (q 0)] = true
   /\ mats_eq (map (fun o : @out Qc => snd o) (flatten_ref N tree_nested (mI N)))
              [mat6 (q 2) (q 0) (q 0) (q 2) (q 10) (q 0)] = true
@@ -268,8 +309,8 @@ Proof. vm_compute. repeat split. Qed.
 
 (* flatten_all_paths discards the transformed path *)
 Example C17_sax_discard_refuted :
-  tie_plain (q 0) (sax_flatten N tree_nested) (Some [(1%nat, [SgLine (q 0, q 0) (q 1, q 1)])]) = true
-  /\ tie_entries (q 0) (doc_paths N tree_nested)
+  tie_plain (q 0) (sax_flatten N pinned tree_nested) (Some [(1%nat, [SgLine (q 0, q 0) (q 1, q 1)])]) = true
+  /\ tie_entries (q 0) (doc_paths N pinned tree_nested)
         (Some [(1%nat, [SgLine (q 10, q 0) (q 12, q 2)], mat6 (q 2) (q 0) (q 0) (q 2) (q 10) (q 0))]) = true.
 Proof. vm_compute. repeat split. Qed.
 
@@ -286,9 +327,23 @@ Proof. vm_compute. split; reflexivity. Qed.
    the whole document (the element is mistaken for an empty list of names) *)
 Definition tree_empty_group : qnode := Group [] [Shape KPath path1 []; Group [] []].
 Example C17_paths_from_group_empty_refuted :
-  map (fun o : @out Qc => a_id (snd (fst o))) (paths_from_group N tree_empty_group [1%nat]) = [1%nat]
+  map (fun o : @out Qc => a_id (snd (fst o))) (paths_from_group N pinned tree_empty_group [1%nat]) = [1%nat]
   /\ option_map (@length _) (ref_from_group N tree_empty_group [1%nat]) = Some 0%nat.
 Proof. vm_compute. split; reflexivity. Qed.
+
+(* the same witnesses on the repaired variant: the discrepancies are gone *)
+Example C17_repaired_witnesses :
+  osegs_eq (convert N repaired RDocument KRect rect_rounded) (shape_spec N KRect rect_rounded) = true
+  /\ osegs_eq (convert N repaired RSvg2paths KRect rect_big_rx) (shape_spec N KRect rect_big_rx) = true
+  /\ osegs_eq (convert N repaired RSvg2paths KLine line_no_x1) (shape_spec N KLine line_no_x1) = true
+  /\ osegs_eq (convert N repaired RSax KLine line_no_x1) (shape_spec N KLine line_no_x1) = true
+  /\ length (paths_from_group N repaired tree_empty_group [1%nat]) = 0%nat
+  /\ mats_eq (map (fun o : @saxout Qc => odefm N (snd o)) (sax_tree N repaired tree_nested))
+             (map (fun o : @out Qc => snd o) (flatten_ref N tree_nested (mI N))) = true
+  /\ tie_plain (q 0) (sax_flatten N repaired tree_nested) (Some [(1%nat, [SgLine (q 10, q 0) (q 12, q 2)])]) = true
+  (* not repaired: the Arc branch of transform() *)
+  /\ doc_paths N repaired tree_circle = None.
+Proof. vm_compute. repeat split. Qed.
 
 (* non-vacuity: a mixed tree on which everything agrees *)
 Definition poly3 : @attrs Qc :=
@@ -299,9 +354,9 @@ Definition tree_mixed : qnode :=
         [Shape KPolygon poly3 [TTranslate (q 1) None];
          Group [TRotate (q 0) (q 1) (Some (q 1, q 1))] [Shape KPath path1 [TSkewX (q 1)]]].
 Example C17_nonvacuous :
-  check_document (q 0) tree_mixed
-     (option_map (map (fun r => r)) (doc_paths N tree_mixed)) = 0%nat
-  /\ option_map (@length _) (doc_paths N tree_mixed) = Some 2%nat.
+  check_document pinned (q 0) tree_mixed
+     (option_map (map (fun r => r)) (doc_paths N pinned tree_mixed)) = 0%nat
+  /\ option_map (@length _) (doc_paths N pinned tree_mixed) = Some 2%nat.
 Proof. vm_compute. split; reflexivity. Qed.
 
 (* the generic theorems hold in particular over R and over the rationals the
@@ -323,6 +378,12 @@ Print Assumptions C17_stack_order.
 Print Assumptions C17_compose.
 Print Assumptions C17_from_group.
 Print Assumptions C17_paths_from_group_partial.
+Print Assumptions C17_paths_from_group.
+Print Assumptions C17_shapes_line.
+Print Assumptions C17_shapes_rect.
+Print Assumptions C17_sax_matrix.
+Print Assumptions C17_sax_flatten.
+Print Assumptions C17_repaired_witnesses.
 Print Assumptions C17_paths_from_group_empty_refuted.
 Print Assumptions C17_shapes_polyline.
 Print Assumptions C17_shapes_polygon.
